@@ -14,7 +14,8 @@ SOURCES = ["src/asyncio_taskpool/control/server.py", "src/asyncio_taskpool/contr
            "src/asyncio_taskpool/control/client.py", "src/asyncio_taskpool/control/__main__.py"]
 PROOF = {"C19": {"module": "Thm_C19",
                  "theorems": ["C19_serving_until_stop", "C19_clients_served", "C19_disconnect_is_local",
-                              "C19_stop", "C19_socket_file", "C19_restart"],
+                              "C19_stop", "C19_socket_file", "C19_restart",
+                              "C19_pending_handshake_is_local"],
                  "files": ["srv/SModel.v", "srv/SProofs.v", "srv/Thm_C19.v"]}}
 TRUSTED = [
     "Coq 8.16.1 kernel (coqc; coqchk in the thorough tier); no native_compute",
@@ -34,11 +35,16 @@ ASSUMPTIONS = [
 def gen_labels(rng, max_len):
     labels = ["start"] if rng.random() < 0.9 else []
     nconn, stopped = 0, False
+    pending = []      # connections opened whose handshake line was not sent yet
     n = rng.randint(3, max_len)
     while len(labels) < n:
         x = rng.random()
         if x < 0.06:
             labels.append("connectbad"); nconn += 1
+        elif x < 0.14:
+            labels.append("open"); nconn += 1; pending.append(nconn - 1)
+        elif x < 0.22 and pending:
+            labels.append(f"hello {pending.pop(rng.randrange(len(pending)))}")
         elif x < 0.3:
             labels.append("connect"); nconn += 1
         elif x < 0.55 and nconn:
@@ -115,7 +121,7 @@ def job_random(seed, count, max_len, cli_every):
             c = e.rsplit("conns=", 1)[1]
             n = 0 if c == "-" else len(c.split(","))
             if n > prev:
-                conns.append(l)
+                conns.append("raw-only" if l == "open" else l)
             prev = n
         first = next((j for j, l in enumerate(conns) if l == "connect"), None)
         ck = ["cli" if (cli_every and (i % cli_every == 0) and j == first) else "raw"
@@ -140,6 +146,13 @@ CORPUS = [
     ("unix", ["start", "connect", "send 0", "leave 0", "stop"], ["cli"]),
     ("tcp", ["start", "connect", "send 0", "send 0", "stop", "leave 0"], ["cli"]),
     ("unix", ["start", "connect", "connect", "send 1", "stop", "leave 0", "send 1"], ["cli", "raw"]),
+    # overlapping handshakes: a second client connects (and is served) while the first one's
+    # session still waits for its handshake line
+    ("unix", ["start", "open", "connect", "send 1", "hello 0", "send 0", "send 1", "stop", "leave 0", "leave 1"],
+     ["raw", "raw"]),
+    ("tcp", ["start", "open", "open", "connect", "hello 1", "send 1", "send 2", "hello 0", "send 0", "stop",
+             "send 2", "leave 0", "leave 1"], ["raw", "raw", "raw"]),
+    ("tcp", ["start", "open", "stop", "connect", "hello 0", "send 0"], ["raw"]),
     # restart of the same server object after a completed stop
     ("unix", ["start", "connect", "stop", "leave 0", "start", "connect", "send 1", "stop", "send 1", "connect"],
      ["raw", "raw"]),
